@@ -217,3 +217,7 @@ impl ClientManager {
         }
     }
 }
+
+#[cfg(kani)]
+#[path = "/verif/harness/server/hooks/client_manager.rs"]
+pub(crate) mod verif_hook;
